@@ -1091,6 +1091,151 @@ async def server_async(case, out, loop):
         await side.close()
 
 
+# =============================== part 2b: real server behind a slow link =============================================
+
+SLOW_SPEEDS = ["fast", "fast", "mid40", "mid50", "mid55", "too_slow"]
+SLOW_PAUSES = [0, 0, 0, 5, 29, 31, 45]
+
+
+def slow_link_strategy(tier):
+    xfer = st.fixed_dictionaries({"blob": st.integers(0, 2), "speed": st.sampled_from(SLOW_SPEEDS),
+                                  "pause_before": st.sampled_from(SLOW_PAUSES)})
+    return st.fixed_dictionaries({
+        "blobs": st.lists(st.fixed_dictionaries({"kind": st.sampled_from(["random", "zeros", "json_prefix", "braces"]),
+                                                 "size": st.integers(100_000, 300_000),
+                                                 "seed": st.integers(0, 10 ** 6), "prefix_idx": st.integers(0, 9)}),
+                          min_size=1, max_size=3),
+        "transfers": st.lists(xfer, min_size=1, max_size=4),
+        "c2s": frag_strategy(400),
+    })
+
+
+async def slow_link_async(case, out, loop):
+    """several requests on one kept-alive connection whose reader is slow: the link has a small send buffer with flow control and
+    a byte rate, so a transfer lasts a chosen virtual time: 2 s, 40..55 s (longer than the idle time-out, shorter than the
+    transfer time-out: must complete, whatever happened on the connection before) or 200 s (must be cut off by the transfer
+    time-out); pauses between the requests shorter or longer than the idle time-out"""
+    from lbry.blob_exchange.server import BlobServerProtocol
+    from vlib.vloop import SlowPipeTransport
+    side = await Side(loop).open()
+    try:
+        verified = {}
+        for b in case["blobs"]:
+            c = make_content(b["kind"], b["size"], b["seed"], b["prefix_idx"])
+            if hashlib.sha384(c).hexdigest() not in verified:
+                verified[await side.add_verified(c)] = c
+        hashes = sorted(verified)
+        server = BlobServerProtocol(loop, side.bm, ADDR, idle_timeout=IDLE_T, transfer_timeout=TRANSFER_T)
+        ts = SlowPipeTransport(loop, server, ('1.2.3.4', 4444), rate=1e9)
+        server.connection_made(ts)
+        frag = Frag(case["c2s"])
+        expect_served = []
+        completed_before = 0
+        for k, x in enumerate(case["transfers"]):
+            if x["pause_before"]:
+                await asyncio.sleep(x["pause_before"])
+                await quiesce(loop)
+            if x["pause_before"] > IDLE_T:
+                out.label("slow:pause>idle")
+                out.check(ts.is_closing(), "slow:idle-connection-not-closed",
+                          "%d s without a request after %d transfers, idle time-out %d s" % (x["pause_before"], completed_before, IDLE_T))
+            if ts.is_closing():
+                # closing an idle connection earlier than the idle time-out is "within the configured time-outs": not judged
+                out.label("slow:closed-between-transfers")
+                break
+            h = hashes[x["blob"] % len(hashes)]
+            size = len(verified[h])
+            secs = {"fast": 2.0, "mid40": 40.0, "mid50": 50.0, "mid55": 55.0, "too_slow": 200.0}[x["speed"]]
+            ts.rate = size / secs
+            out.label("slow:" + ("mid" if x["speed"].startswith("mid") else x["speed"]), "slow:transfer#%d" % min(k, 2))
+            data = json.dumps({"requested_blobs": [h], "lbrycrd_address": True, "blob_data_payment_rate": 0.0,
+                               "requested_blob": h}).encode()
+            t_start = loop.time()
+            j = 0
+            while j < len(data) and not ts.is_closing():
+                n = frag.next(len(data) - j)
+                ts.feed(data[j:j + n])
+                j += n
+                await asyncio.sleep(0)
+            if x["speed"] == "too_slow":
+                await asyncio.sleep(TRANSFER_T + 1)
+                await quiesce(loop)
+                out.nontrivial = True
+                out.check(ts.is_closing(), "slow:overlong-transfer-not-timed-out",
+                          "transfer needing %d s still going %d s after the request (transfer time-out %d s)" % (secs, TRANSFER_T + 1, TRANSFER_T))
+                if ts.is_closing() and ts.closed_at is not None:
+                    out.check(ts.closed_at - t_start <= TRANSFER_T + 0.001, "slow:closed-too-late", "%.1f s" % (ts.closed_at - t_start))
+                break
+            await asyncio.sleep(secs + 1)
+            await quiesce(loop)
+            if x["speed"].startswith("mid"):
+                out.nontrivial = True
+                if completed_before:
+                    out.label("slow:mid-after-completed-transfer")
+            problems, served = parse_server_stream(bytes(ts.delivered), verified)
+            expect_served.append(h)
+            if served != expect_served or problems:
+                why = "closed %.1f s after the request" % (ts.closed_at - t_start) if ts.closed_at is not None else "connection open"
+                out.violate("slow:transfer-within-timeout-not-completed:%s:%s" % (
+                    "mid" if x["speed"].startswith("mid") else "fast", "first" if not completed_before else "later"),
+                    "transfer #%d of %d bytes over %d s (idle %d s, transfer time-out %d s): %s; %d of %d bytes arrived; %r" % (
+                        k, size, secs, IDLE_T, TRANSFER_T, why, len(ts.delivered), sum(len(verified[e]) for e in expect_served), problems))
+                break
+            completed_before += 1
+        # in the end the connection goes away within the time-outs
+        await asyncio.sleep(IDLE_T + TRANSFER_T + 1)
+        await quiesce(loop)
+        out.check(ts.is_closing(), "slow:connection-still-open-after-timeouts", "")
+        problems, served = parse_server_stream(bytes(ts.delivered), verified)
+        for pr in problems:
+            if pr.startswith("body-differs") and ts.is_closing():
+                # a cut-off transfer: what arrived must be a prefix of the blob the header names
+                continue
+            out.violate("slow:wire:" + pr.split(" at ")[0], pr)
+        # prefix check of a cut-off body
+        problems2 = cut_off_body_problem(bytes(ts.delivered), verified)
+        if problems2:
+            out.violate("slow:wire:cut-off-body-not-a-prefix", problems2)
+        # the shared blob manager keeps serving others
+        server2 = BlobServerProtocol(loop, side.bm, ADDR, idle_timeout=IDLE_T, transfer_timeout=TRANSFER_T)
+        t2 = PipeTransport(loop, server2, ('1.2.3.5', 4445))
+        server2.connection_made(t2)
+        t2.feed(json.dumps({"requested_blobs": [hashes[0]], "lbrycrd_address": True, "blob_data_payment_rate": 0.0,
+                            "requested_blob": hashes[0]}).encode())
+        await quiesce(loop)
+        pr2, served2 = parse_server_stream(bytes(t2.out), verified)
+        out.check(served2 == [hashes[0]] and not pr2, "slow:other-connection-not-served", "%r %r" % (pr2, [s[:6] for s in served2]))
+        t2.close()
+    finally:
+        await side.close()
+
+
+def cut_off_body_problem(buf, verified):
+    """walk the stream like parse_server_stream; for a last, incomplete body require a prefix of the named blob"""
+    i = 0
+    while i < len(buf):
+        if buf[i:i + 1] != b'{':
+            return None
+        e = json_end(buf[i:])
+        if e < 0:
+            return None
+        try:
+            hdr = json.loads(buf[i:i + e])
+        except ValueError:
+            return None
+        i += e
+        inc = hdr.get("incoming_blob") if isinstance(hdr, dict) else None
+        if isinstance(inc, dict) and inc.get("blob_hash") in verified:
+            content = verified[inc["blob_hash"]]
+            body = buf[i:i + len(content)]
+            if len(body) < len(content):
+                return None if content.startswith(body) else "%d bytes after the header of %s are not a prefix of it" % (len(body), inc["blob_hash"][:8])
+            if body != content:
+                return None   # reported by parse_server_stream
+            i += len(content)
+    return None
+
+
 # =============================== part 3: real client, scripted server ================================================
 
 MISBEHAVIOURS = ["control", "wrong_hash_header", "short_length", "long_length", "zero_length", "negative_length", "huge_length",
@@ -1387,6 +1532,8 @@ PARTS = [
          essential=("fuzz-campaign",), case_timeout=3400),
     Part("server", server_strategy, lambda c: _run(server_async, c), 300, 1500, quick_shards=4, thorough_shards=16,
          essential=tuple("req:" + k for k in sorted(set(REQ_KINDS)))),
+    Part("slow_link", slow_link_strategy, lambda c: _run(slow_link_async, c), 120, 1000, quick_shards=4, thorough_shards=16,
+         essential=("slow:mid", "slow:fast", "slow:too_slow", "slow:mid-after-completed-transfer", "slow:pause>idle", "slow:transfer#2")),
     Part("client", client_strategy, lambda c: _run(client_async, c), 300, 1500, quick_shards=6, thorough_shards=16,
          essential=tuple("mis:" + k for k in MISBEHAVIOURS)),
 ]
